@@ -390,8 +390,8 @@ impl Bundle {
         if let Some(bablock) = self.extension_block_by_type_mut(BUNDLE_AGE_BLOCK) {
             if let Some(ba_orig) = bablock.bundle_age_get() {
                 bablock.bundle_age_update(ba_orig + residence_time);
-                if ba_orig + residence_time > self.primary.lifetime.as_micros() {
-                    // TODO: check lifetime exceeded calculations with rfc
+                // bundle age and lifetime are both in milliseconds
+                if ba_orig + residence_time > self.primary.lifetime.as_millis() {
                     return false;
                 }
             }
